@@ -346,7 +346,16 @@ func (ch c03) framing(c *core.Ctx, env *hs.Env, rng *core.Rng, idx int) {
 		stream = append(stream, pg.Sync()...)
 		stream = append(stream, pg.Query(q)...)
 	}
-	stream = append(stream, pg.Terminate()...)
+	if !huge && !cutShort && rng.Intn(4) == 0 {
+		// the stream ends inside the body of a last Query (the client is gone): nothing of a message that
+		// never arrived in full is acted upon
+		full := pg.Query("a query whose end never arrived " + rng.Ident(10+rng.Intn(200)))
+		stream = append(stream, full[:5+rng.Intn(len(full)-5)]...)
+		shape += "q"
+		c.Count("streams_ending_inside_a_message_body", 1)
+	} else {
+		stream = append(stream, pg.Terminate()...)
+	}
 	sess := &hs.Sess{Progs: progs}
 	conn := env.Dial(sess)
 	conn.NoLog = true
